@@ -22,7 +22,8 @@ def shards(tier):
             out.append(dict(part="A", geo=geo, op=op, shapes=["list", "list-scalar", "scalar-id"], k=2 if tier == "quick" else 3, vlo=None))
     for geo in ["p1x2", "t2x1"]:
         for op in ("add", "remove"):
-            out.append(dict(part="B", geo=geo, op=op, shapes=["scalar-id"], k=1, vlo=None))
+            for sel in ("limit", "state", "post", "exc"):   # one shard per claim family: the bit-precise queries run in parallel
+                out.append(dict(part="B", geo=geo, op=op, shapes=["scalar-id"], k=1, vlo=None, sel=sel))
     for dev in ("evo", "fluent"):
         for sg, dg in [("p2x2", "t3x2"), ("t3x2", "p2x2")]:
             for op in ("aspirate", "dispense", "transfer", "distribute", "evo_aspirate", "evo_dispense"):
@@ -85,7 +86,9 @@ def judge(ctx, p, outcome):
     if p["part"] in ("A", "B"):
         c = ctx.ctx
         sign = 1 if p["op"] == "add" else -1
-        lwops.check_sequential(ctx, c["lab"], common.GEO[p["geo"]][0], c["pre"], c["pairs"], sign, outcome, ns, "C02")
+        lwops.check_sequential(ctx, c["lab"], common.GEO[p["geo"]][0], c["pre"], c["pairs"], sign, outcome, ns, "C02", sel=p.get("sel"))
+        if p.get("sel") not in (None, "post"):
+            return
         if kind == "ok":
             for w in c["pre"]:
                 ctx.prove(ctx.finite(c["lab"]._volumes[w]), "C02: non-finite volume after a normal return")
